@@ -48,6 +48,7 @@ class Contract:
         self.crash = kw.pop("crash", None)
         self.native_check = kw.pop("native_check", None)
         self.no_merge = kw.pop("no_merge", False)
+        self.hints = kw.pop("hints", {})  # {callee-qualname-suffix: f(c)}: proved right after that call returns, then assumed (proof hint)
         self.bounded = kw.pop("bounded", None)  # (script, n_quick, n_thorough): bounded run-time stand-in, never counted as proved  # fork at every `if` instead of merging states (smaller queries, more paths)  # CPython twin of the postcondition: f(args: dict, result) -> bool  # crash condition: must hold after every state-mutating call in the body  # custom native replay driver
         if kw:
             raise TypeError(f"unknown contract fields {list(kw)}")
